@@ -42,7 +42,7 @@ Definition prof_of (c : case) : profile := if release c then Release else Debug.
 Definition shape_crashes (prof : profile) (s : shape) : option bool :=
   match s with
   | SPatRangeMatch (Some r) => Some (is_rpanic (pat_range_match host_fns prof 0 r))
-  | SPct (Some n) (Some q) => Some ((0 <? n) && pct_trunc_trapping && traps_become_panics && is_trap (pct_max_count n q))
+  | SPct (Some n) (Some q) => Some ((0 <? n) && traps_become_panics && is_trap (emit_pct pct_trunc_trapping n q))
   | SDiv (Some a) (Some b) => Some (traps_become_panics && is_trap (emit_div div_guards a b))
   | SRem (Some a) (Some b) => Some (traps_become_panics && is_trap (emit_rem div_guards a b))
   | SShift l (Some a) (Some b) => Some (traps_become_panics && is_trap (emit_shift div_guards l a b))
